@@ -287,6 +287,9 @@ impl Envelope {
         // - `Signature` objects with additional metadata assertions, wrapped
         // and then signed by the same key.
         let signature_objects = self.objects_for_predicate(known_values::SIGNED);
+        // An object that is not a valid signature from `key` is skipped rather
+        // than reported as an error: otherwise the outcome would depend on
+        // whether it sorts before or after a valid signature.
         let result: Option<Result<Option<Envelope>>> = signature_objects.iter().find_map(|signature_object| {
             let signature_object_subject = signature_object.subject();
             if signature_object_subject.is_wrapped() {
@@ -300,7 +303,7 @@ impl Envelope {
                             return None;
                         }
                     } else {
-                        return Some(Err(anyhow::anyhow!("Unexpected outer signature object type.")));
+                        return None;
                     }
                 } else {
                     // The metadata is only covered by the outer signature: a
@@ -312,11 +315,11 @@ impl Envelope {
                 if let Ok(signature) = signature_metadata_envelope.extract_subject::<Signature>() {
                     let signing_target = self.subject();
                     if !signing_target.is_signature_from_key(&signature, key) {
-                        return Some(Err(anyhow::anyhow!("Inner signature not made with same key as outer signature.")));
+                        return None;
                     }
                     Some(Ok(Some(signature_metadata_envelope)))
                 } else {
-                    Some(Err(anyhow::anyhow!("Unexpected inner signature object type.")))
+                    None
                 }
             } else if let Ok(signature) = signature_object.extract_subject::<Signature>() {
                 if !self.is_signature_from_key(&signature, key) {
@@ -324,7 +327,7 @@ impl Envelope {
                 }
                 Some(Ok(Some(signature_object.clone())))
             } else {
-                Some(Err(anyhow::anyhow!("Unexpected signature object type.")))
+                None
             }
         });
 
